@@ -20,6 +20,7 @@ def plan(tier, seed):
         j["name"] += "[%s,%s,%d]" % (shape, op, npos)
         jobs.append(j)
     jobs.append(ch("C20", "vf/pyshim/h_partfile.py", "h_make_part_file", t, ["writer.make_part_file"]))
+    jobs.append(ch("C20", "vf/pyshim/h_c09.py", "h_readonly_leaves_statistics", t, ["api.sorted_partitioned_columns", "api.ParquetFile.statistics", "api.statistics"]))
     jobs.append(ch("C20", F, "h_head_leaves_handle", t, ["api.ParquetFile.head", "api.ParquetFile.__getitem__"]))
     jobs.append(dict(name="C20-lemma-no-module-buffers", kind="pyfunc", timeout=300,
                      payload=dict(func="vf.pyshim.lemma_c20:no_module_buffers")))
